@@ -188,6 +188,9 @@ class Image:
         """materialise as a (sparse) real file"""
         if not self._sorted:
             self.finish()
+        vol = sum(sn for _, sn, _, _ in self.segs)
+        if vol > WRITE_CAP:              # a generator handed a huge pattern image to a family that works on real files: a harness
+            raise RuntimeError(f"harness: refusing to materialise {vol} bytes at {path}")      # defect (exit 2), never a verdict
         with open(path, "wb") as f:
             for so, sn, kind, arg in self.segs:
                 f.seek(so)
@@ -202,6 +205,7 @@ class Image:
         return SparseFile(self, name, log)
 
 
+WRITE_CAP = 1 << 30   # most bytes write_to() is willing to put on the disk for one image
 TRACK = None          # when a list: every SparseFile created is appended (C09 collects their mutation logs)
 LOG_NEW = False       # when True: every SparseFile created logs its read() calls from the start (C13 records what the constructors read)
 PERMISSIVE = False    # when True: write()/truncate() are recorded and *accepted* (like a handle opened r+b) instead of raising
